@@ -102,6 +102,13 @@ type Session struct {
 	clientRcpts map[string][]string
 
 	log log.Logger
+
+	// The reader Data/LMTPData is receiving the message from (BDAT is served
+	// in a separate goroutine that holds msgLock while it waits for the next
+	// chunk) and whether the session was finished meanwhile.
+	bodyLock   sync.Mutex
+	bodyReader io.Reader
+	loggedOut  bool
 }
 
 func (s *Session) AuthMechanisms() []string {
@@ -452,7 +459,34 @@ func (s *Session) rcpt(ctx context.Context, to string, opts *smtp.RcptOptions) e
 	return nil
 }
 
+// setBodyReader records the reader the message is being received from. If the
+// session is already finished, the transfer is failed right away.
+func (s *Session) setBodyReader(r io.Reader) {
+	s.bodyLock.Lock()
+	defer s.bodyLock.Unlock()
+	s.bodyReader = r
+	if s.loggedOut {
+		s.failBodyReader()
+	}
+}
+
+// failBodyReader makes the message transfer in progress (if any) fail, so
+// Data/LMTPData waiting for the next BDAT chunk returns and releases msgLock.
+// bodyLock must be held.
+func (s *Session) failBodyReader() {
+	if c, ok := s.bodyReader.(interface{ CloseWithError(error) error }); ok {
+		c.CloseWithError(smtp.ErrDataReset)
+	}
+}
+
 func (s *Session) Logout() error {
+	// go-smtp does not end the BDAT transfer when the session is replaced by
+	// a repeated EHLO/LHLO: without this, msgLock is never released.
+	s.bodyLock.Lock()
+	s.loggedOut = true
+	s.failBodyReader()
+	s.bodyLock.Unlock()
+
 	s.msgLock.Lock()
 	defer s.msgLock.Unlock()
 
@@ -504,6 +538,9 @@ func (s *Session) prepareBody(r io.Reader) (textproto.Header, buffer.Buffer, err
 }
 
 func (s *Session) Data(r io.Reader) error {
+	s.setBodyReader(r)
+	defer s.setBodyReader(nil)
+
 	s.msgLock.Lock()
 	defer s.msgLock.Unlock()
 
@@ -589,6 +626,9 @@ func (sw statusWrapper) SetStatus(rcpt string, err error) {
 }
 
 func (s *Session) LMTPData(r io.Reader, sc smtp.StatusCollector) error {
+	s.setBodyReader(r)
+	defer s.setBodyReader(nil)
+
 	s.msgLock.Lock()
 	defer s.msgLock.Unlock()
 
